@@ -153,6 +153,7 @@ def run_swath(src, tgt, chunks, out):
                             xr.DataArray(da.from_array(lats, chunks=chunks)))
     inst = {}
     out["inst"] = inst
+    out["_swath"] = swath
     sl = slicer_mod.create_slicer(swath, tgt)
     try:
         poly = sl.get_polygon_to_contain()
@@ -229,4 +230,45 @@ for c in req["cases"]:
     except Exception as e:   # construction of the inputs failed: not an observation of the cropping code
         out["setup_err"] = err(e)
     results.append(out)
+
+# ---- histories: the same requests again, in reverse order, through the caches (fresh but equal area objects for the
+# lru_cache of crop_source_area; the same swath object for the lru_cache(maxsize=10) of the chunk boxes, which more than
+# ten swaths have gone through by now; a miss and a hit of the JSON file cache of get_area_slices)
+import tempfile  # noqa: E402
+
+import pyresample  # noqa: E402
+from pyresample.resampler import crop_source_area  # noqa: E402
+
+
+def outcome(f):
+    try:
+        xs, ys = f()
+        return sl4(xs, ys)["sl"]
+    except Exception as e:
+        return type(e).__name__
+
+
+with tempfile.TemporaryDirectory() as cache_dir:
+    for c, out in reversed(list(zip(req["cases"], results))):
+        if c["api"] == "scalar" or "setup_err" in out or not c.get("history"):
+            continue
+        try:
+            if c["api"] == "slicer":
+                out["again"] = [outcome(lambda: crop_source_area(mk_area(c["src"], "src"), mk_area(c["tgt"], "tgt"))[1:])
+                                for _ in range(2)]
+                out["fresh"] = outcome(lambda: slicer_mod.create_slicer(mk_area(c["src"], "s2"), mk_area(c["tgt"], "t2")).get_slices())
+            elif c["api"] == "gas":
+                src, tgt = mk_area(c["src"], "src"), mk_area(c["tgt"], "tgt")
+                out["fresh"] = outcome(lambda: src.get_area_slices(tgt))
+                with pyresample.config.set(cache_geometry_slices=True, cache_dir=cache_dir):
+                    out["again"] = [outcome(lambda: tuple(mk_area(c["src"], "src").get_area_slices(mk_area(c["tgt"], "tgt"))))
+                                    for _ in range(2)]
+            elif c["api"] == "swath" and "_swath" in out:
+                sw, tgt = out["_swath"], mk_area(c["tgt"], "tgt")
+                out["again"] = [outcome(lambda: slicer_mod.create_slicer(sw, tgt).get_slices()) for _ in range(2)]
+                out["fresh"] = "sl" in out["res"] and out["res"]["sl"] or out["res"]["err"]
+        except Exception as e:
+            out["history_err"] = err(e)
+for out in results:
+    out.pop("_swath", None)
 json.dump({"results": results}, sys.stdout)
